@@ -172,6 +172,57 @@ Theorem C15_proxy_history :
 Proof. exact proxy_history. Qed.
 Print Assumptions C15_proxy_history.
 
+(* ---- Channels: the tag routing a connection keeps (conn.subs / Session.chn) ------------------- *)
+(* routes_current w: a session's outbound queue is redirected only into the Channel of a host that
+   runs one and whose conn.subs holds the session's key.  All histories of hello / Channel start /
+   Channel packets with ANY tag list (empty, shorter, re-added, unknown, own, colliding) / Channel
+   end / sends / polls keep it. *)
+Theorem C15_channel_routes_current :
+  forall ops w, routes_current w -> routes_current (crun w ops).
+Proof. exact crun_routes_current. Qed.
+Print Assumptions C15_channel_routes_current.
+
+(* one Channel packet (conn.resolve(tags, true)): conn.subs becomes exactly the marked keys of THIS
+   list; afterwards a session is routed to this host only if its key is a registered tag of THIS
+   list, every such tag that is free (or already this host's) is routed to it, and routes to other
+   hosts are at most withdrawn, never created *)
+Theorem C15_channel_packet_routes_last_tags :
+  forall w hk hid tags w', chan_resolve w hk hid tags = (w', true) -> routes_current w ->
+  routes_current w' /\
+  w_subs w' !! hk = Some (mark_tags (w_tbl w) hid tags []).1 /\
+  (forall k, w_route w' !! k = Some hk -> In k tags /\ tag_valid (w_tbl w) hid k = true) /\
+  (forall k, In k tags -> tag_valid (w_tbl w) hid k = true ->
+             w_route w !! k = None \/ w_route w !! k = Some hk -> w_route w' !! k = Some hk) /\
+  (forall k h, h <> hk -> w_route w' !! k = Some h -> w_route w !! k = Some h).
+Proof. exact chan_resolve_spec. Qed.
+Print Assumptions C15_channel_packet_routes_last_tags.
+
+(* the EMPTY list is not a no-op: everything previously tagged is withdrawn *)
+Theorem C15_channel_empty_list_withdraws :
+  forall w hk hid, routes_current w ->
+  exists w', chan_resolve w hk hid [] = (w', true) /\ routes_current w' /\
+             w_subs w' !! hk = Some [] /\ forall k, w_route w' !! k <> Some hk.
+Proof. exact chan_resolve_empty. Qed.
+Print Assumptions C15_channel_empty_list_withdraws.
+
+(* hence outbound_own_conn with Channels: a packet queued for d lands in d's own queue or in the
+   queue of the host whose running Channel CURRENTLY tags d, and in no other queue *)
+Theorem C15_channel_send_lands :
+  forall w d pid job, routes_current w ->
+  exists q, (q = hash d \/ (w_route w !! hash d = Some q /\ exists l, w_subs w !! q = Some l /\ In (hash d) l)) /\
+            forall k, k <> q -> w_tbl (cstep w (KSend d pid job)).1 !! k = w_tbl w !! k.
+Proof. exact send_lands. Qed.
+Print Assumptions C15_channel_send_lands.
+
+(* non-vacuity: A tags C (C's packet lands in A's queue), then A sends no tags (C's next packet lands in C's own queue) *)
+Example C15_channel_nonvacuous :
+  csnapshot (crun cw0 chan_demo) =
+    [ (152284485, idC, 0, [(idC, 209, 13)]); (827974963, idA, 0, [(idC, 208, 12)]) ] /\
+  csnapshot (crun cw0 (firstn 7 chan_demo)) =
+    [ (152284485, idC, 827974963, []); (827974963, idA, 0, [(idC, 208, 12)]) ].
+Proof. exact chan_demo_run. Qed.
+Print Assumptions C15_channel_nonvacuous.
+
 (* ---- the code as it was before the fix: commits (chk = false), with the real pair ------------- *)
 (* Server.Session(B) returned A's session; a packet naming B updated the address / last-seen time
    of A's session and overwrote its key material before receive() refused it (talk and talkSub);
